@@ -108,9 +108,97 @@ def opC10Subpackages (j : Json) : Except String Json := do
                     ("outcomes", if (dedup names).length ≤ 6 then
                         jarr ((outcomes subpackageOrder (dedup names)).map fun o => jarr (o.map jstr)) else Json.null)])
 
+/-! round 2: insertion-ordered dicts -/
+
+def c10Binding (v : Json) : Except String Model.Determinism.HttpBinding := do
+  pure ⟨← getStrL v "verb", ← getStrL v "uri", ← getStrL v "body"⟩
+
+def c10Rules (j : Json) (k : String) : Except String (List Model.Determinism.YamlRule) := do
+  (← getArrL j k).mapM fun v => do
+    let b ← c10Binding v
+    let add ← (← getArrL v "additional").mapM c10Binding
+    pure ⟨← getStrL v "selector", b, add⟩
+
+def c10Table (j : Json) (k : String) : Except String Model.Determinism.MethodTable := do
+  (← getArrL j k).mapM fun v => do
+    match (← v.getArr?).toList with
+    | [Json.str a, Json.str b] => pure (a.toList, b.toList)
+    | _ => throw "bad table entry"
+
+def c10BindingsJson (bs : List Model.Determinism.HttpBinding) : Json :=
+  jarr (bs.map fun b => jarr [jstr b.verb, jstr b.uri, jstr b.body])
+
+open Model.Determinism in
+/-- `{k: v for …}` then `.update(more)`: keys, items -/
+def opC10Omap (j : Json) : Except String Json := do
+  let pairs ← c10Pairs j "pairs"
+  let more ← c10Pairs j "more"
+  let d := (OMap.ofPairs pairs).update more
+  let probe ← c10StrList j "probe"
+  pure (Json.mkObj [("keys", jarr (d.keys.map jstr)),
+                    ("items", jarr (d.map fun p => jarr [jstr p.1, Json.str p.2])),
+                    ("get", jarr (probe.map fun k => match d.get? k with | some v => Json.str v | none => Json.null))])
+
+open Model.Determinism in
+def opC10Mixins (j : Json) : Except String Json := do
+  let tj ← j.getObjVal? "tables"
+  let T : MixinTables := ⟨← c10Table tj "loc", ← c10Table tj "iam", ← c10Table tj "ops"⟩
+  let apis ← c10StrList j "apis"
+  let sm ← (← getArrL j "service_methods").mapM fun v => do
+    (← v.getArr?).toList.mapM fun x => do pure (← x.getStr?).toList
+  let rules ← c10Rules j "rules"
+  let m := mixinApiMethods T apis sm rules
+  let ho := mixinHttpOptions m
+  let api := httpOptions rules
+  pure (Json.mkObj [
+    ("has", jarr [Json.bool (hasApi apis locApi), Json.bool (hasApi apis iamApi), Json.bool (hasApi apis opsApi)]),
+    ("iam_overrides", Json.bool (iamOverrides T apis sm rules)),
+    ("methods", jarr (m.map fun p => jarr [jstr p.1, jstr p.2.rule.uri])),
+    ("signatures", jarr ((mixinApiSignatures m).keys.map jstr)),
+    ("http_options", jarr (ho.map fun p => jarr [jstr p.1, c10BindingsJson p.2])),
+    ("api_http_options", jarr (api.map fun p => jarr [jstr p.1, c10BindingsJson p.2])),
+    ("spec", jarr ((dedup ((if hasApi apis locApi then selNames T.loc (rules.map (·.selector)) else []) ++
+             (if !iamOverrides T apis sm rules && hasApi apis iamApi then selNames T.iam (rules.map (·.selector)) else []) ++
+             (if hasApi apis opsApi then selNames T.ops (rules.map (·.selector)) else []))).map jstr))])
+
+open Model.Determinism in
+def opC10MethodSettings (j : Json) : Except String Json := do
+  let ms ← (← getArrL j "settings").mapM fun v => do
+    let fields ← c10StrList v "fields"
+    pure ((⟨← getStrL v "selector", ← (← v.getObjVal? "long_running").getBool?, fields⟩ : MethodSetting),
+          ← (← v.getObjVal? "valid").getBool?)
+  let valid : MethodSetting → Bool := fun m => (ms.find? (fun p => p.1 = m)).map (·.2) |>.getD false
+  match allMethodSettings valid (ms.map (·.1)) with
+  | none => pure (Json.mkObj [("raises", Json.bool true)])
+  | some d => pure (Json.mkObj [("raises", Json.bool false),
+      ("items", jarr (d.map fun p => jarr [jstr p.1, jstr p.2.selector, Json.bool p.2.longRunning, jarr (p.2.autoPopulated.map jstr)]))])
+
+open Model.Determinism in
+/-- names per template (and the samples' names) → order of `CodeGeneratorResponse.file`, with the index of the
+template that wrote each file last (`0` = samples) -/
+def opC10ResponseOrder (j : Json) : Except String Json := do
+  let sample ← c10StrList j "sample"
+  let tpls ← (← getArrL j "templates").mapM fun v => do
+    (← v.getArr?).toList.mapM fun x => do pure (← x.getStr?).toList
+  let d := responseFiles (sample.map fun n => (n, 0)) ((tpls.zipIdx).map fun (ns, i) => ns.map fun n => (n, i + 1))
+  pure (Json.mkObj [("order", jarr (d.keys.map jstr)), ("writer", jarr (d.map fun p => jnat p.2))])
+
+open Model.Determinism in
+def opC10ChainMap (j : Json) : Except String Json := do
+  let maps ← (← getArrL j "maps").mapM fun v => do
+    (← v.getArr?).toList.mapM fun x => do pure (← x.getStr?).toList
+  pure (Json.mkObj [("keys", jarr ((chainMapKeys maps).map jstr))])
+
+open Model.Determinism in
+def opC10Dictsort (j : Json) : Except String Json := do
+  let items ← c10Pairs j "items"
+  pure (Json.mkObj [("order", jarr ((dictsort items).map fun p => Json.str p.2))])
+
 def opsC10 : List (String × (Json → Except String Json)) :=
   [("c10.sort_lines", opC10SortLines), ("c10.sort_by_key", opC10SortByKey), ("c10.resources", opC10Resources),
    ("c10.disambiguate", opC10Disambiguate), ("c10.query_params", opC10QueryParams),
-   ("c10.import_block", opC10ImportBlock), ("c10.scopes", opC10Scopes), ("c10.subpackages", opC10Subpackages), ("c10.colliding", opC10Colliding), ("c10.exceptions", opC10Exceptions)]
+   ("c10.import_block", opC10ImportBlock), ("c10.scopes", opC10Scopes), ("c10.subpackages", opC10Subpackages), ("c10.colliding", opC10Colliding), ("c10.exceptions", opC10Exceptions),
+   ("c10.omap", opC10Omap), ("c10.mixins", opC10Mixins), ("c10.method_settings", opC10MethodSettings),
+   ("c10.response_order", opC10ResponseOrder), ("c10.dictsort", opC10Dictsort), ("c10.chain_map", opC10ChainMap)]
 
 end GapicModel.Driver
